@@ -93,6 +93,53 @@ fn shortest(rules: &std::collections::HashMap<String, pest_meta::optimizer::Opti
     }
 }
 
+/// literal characters of a rule and its callees, in the CURRENT grammar.pest (optimized rules)
+fn lits_opt(rules: &std::collections::HashMap<String, pest_meta::optimizer::OptimizedExpr>, name: &str, depth: u32, seen: &mut Vec<String>, out: &mut Vec<char>) {
+    use pest_meta::optimizer::OptimizedExpr as O;
+    if seen.iter().any(|s| s == name) { return; }
+    seen.push(name.to_string());
+    let e = match rules.get(name) { Some(e) => e, None => return };
+    let mut callees = vec![];
+    for x in e.iter_top_down() {
+        match x {
+            O::Str(s) | O::Insens(s) => for c in s.chars() { if !out.contains(&c) { out.push(c); } },
+            O::Range(a, b) => for c in a.chars().chain(b.chars()) { if !out.contains(&c) { out.push(c); } },
+            O::Skip(ss) => for s in ss.iter() { for c in s.chars() { if !out.contains(&c) { out.push(c); } } },
+            O::Ident(n) => callees.push(n.clone()),
+            _ => {}
+        }
+    }
+    if depth > 0 { for c in callees { lits_opt(rules, &c, depth - 1, seen, out); } }
+}
+/// the same for the function of the CHECKED-IN grammar.rs (programs read by genread)
+fn lits_prog(fns: &[(String, pvharness::prog::Prog)], nrules: usize, p: &pvharness::prog::Prog, depth: u32, seen: &mut Vec<usize>, out: &mut Vec<char>) {
+    use pvharness::prog::Prog::*;
+    let mut add = |s: &str, out: &mut Vec<char>| for c in s.chars() { if !out.contains(&c) { out.push(c); } };
+    match p {
+        Str(s) | Ins(s) => add(s, out), Range(a, b) => { if !out.contains(a) { out.push(*a); } if !out.contains(b) { out.push(*b); } }
+        Until(ss) => for s in ss { add(s, out) },
+        Rule(_, q) | Seq(q) | Rep(q) | Opt(q) | Look(_, q) | Atomic(_, q) | Push(q) | Roe(q) => lits_prog(fns, nrules, q, depth, seen, out),
+        Then(a, b) | Else(a, b) | IfNa(a, b) => { lits_prog(fns, nrules, a, depth, seen, out); lits_prog(fns, nrules, b, depth, seen, out); }
+        Call(k) => if *k < nrules && depth > 0 && !seen.contains(k) { seen.push(*k); lits_prog(fns, nrules, &fns[*k].1, depth - 1, seen, out); },
+        _ => {}
+    }
+}
+/// a shortest text of `from` with a hole where `target` is derived: (before, after)
+fn hole(rules: &std::collections::HashMap<String, pest_meta::optimizer::OptimizedExpr>, e: &pest_meta::optimizer::OptimizedExpr, target: &str, depth: u32) -> Option<(String, String)> {
+    use pest_meta::optimizer::OptimizedExpr as O;
+    match e {
+        O::Ident(n) if n == target => Some((String::new(), String::new())),
+        O::Ident(n) => if depth == 0 { None } else { rules.get(n).and_then(|x| hole(rules, x, target, depth - 1)) },
+        O::Seq(a, b) => {
+            if let Some((pre, post)) = hole(rules, a, target, depth) { let mut t = String::new(); shortest(rules, b, 6, &mut t); Some((pre, post + &t)) }
+            else if let Some((pre, post)) = hole(rules, b, target, depth) { let mut t = String::new(); shortest(rules, a, 6, &mut t); Some((t + &pre, post)) } else { None }
+        }
+        O::Choice(a, b) => hole(rules, a, target, depth).or_else(|| hole(rules, b, target, depth)),
+        O::Opt(x) | O::Rep(x) | O::Push(x) | O::RestoreOnErr(x) => hole(rules, x, target, depth),
+        _ => None,
+    }
+}
+
 fn pest_files(repo: &str) -> Vec<String> {
     let mut out = vec![];
     let mut stack = vec![std::path::PathBuf::from(repo)];
@@ -210,6 +257,55 @@ fn main() {
                 }
             }
             writeln!(w, "#SUMMARY\tevaluations={}\tdistinct_nontrivial={}\tdirect_differences={}\tpest_files={}", n, nt, diffs, nfiles).unwrap();
+        }
+        "target" => {
+            // targeted failing-input search for the rules named in arg(3) (comma separated): all short strings over the alphabet of the
+            // literals of the rule and its callees (both versions) fed to THAT rule, and embedded in minimal contexts fed to the top rule
+            let targets: Vec<String> = arg(3).split(',').filter(|x| !x.is_empty()).map(|x| x.to_string()).collect();
+            let maxlen = arg_u64(4, 4) as usize;
+            let gtext = std::fs::read_to_string(grammar_path(&repo)).expect("grammar.pest");
+            let opt = match catch(|| pest_meta::parse_and_optimize(&gtext)) { Ok(Ok((_, o))) => o, _ => { writeln!(w, "GE\tmeta/src/grammar.pest is rejected by pest_meta (the checked-in parser + validator)").unwrap(); writeln!(w, "#SUMMARY\tevaluations=1\tdistinct_nontrivial=0").unwrap(); return; } };
+            writeln!(w, "G\tmeta\t0\t{}\t-", sexp_grammar(&from_orules(&opt))).unwrap();
+            let names: Vec<String> = opt.iter().map(|r| r.name.clone()).collect();
+            let rmap: std::collections::HashMap<String, pest_meta::optimizer::OptimizedExpr> = opt.iter().map(|r| (r.name.clone(), r.expr.clone())).collect();
+            let vm = pest_vm::Vm::new(opt);
+            let all = pest_meta::parser::Rule::all_rules();
+            let none: Vec<String> = vec![];
+            let nor = |_: &str| -> Option<Vec<(char, char)>> { None };
+            let src = std::fs::read_to_string(format!("{}/meta/src/grammar.rs", repo.trim_end_matches('/'))).unwrap_or_default();
+            let checked = syn::parse_file(&src).ok().and_then(|f| genread::read_parser(&f, &none, &nor).ok());
+            let (mut n, mut nt, mut diffs) = (0u64, 0u64, 0u64);
+            let mut feed = |rule: &str, t: &str, w: &mut BufWriter<io::StdoutLock>| {
+                let r = match all.iter().find(|r| format!("{:?}", r) == rule) { Some(r) => *r, None => return };
+                let a = catch(|| match pest_meta::parser::parse(r, t) { Ok(p) => format!("Ok {}", forest(p, &|x: pest_meta::parser::Rule| format!("{:?}", x))), Err(e) => obs_err(e) }).unwrap_or_else(|m| format!("Panic {}", m));
+                let b = if names.iter().any(|x| x == rule) { catch(|| match vm.parse(rule, t) { Ok(p) => format!("Ok {}", forest(p, &|x: &str| x.to_string())), Err(e) => obs_err(e) }).unwrap_or_else(|m| format!("Panic {}", m)) } else { "NoSuchRule".to_string() };
+                n += 1;
+                if (a.starts_with("Ok ") && a.len() > 3) || (a.starts_with("Err ") && !a.starts_with("Err 0 ")) { nt += 1; }
+                if a != b { diffs += 1; }
+                writeln!(w, "D\t{}\t{}\t{}\t{}", rule, hex(t), a, b).unwrap();
+            };
+            for tname in &targets {
+                let mut alpha: Vec<char> = vec![];
+                lits_opt(&rmap, tname, 3, &mut vec![], &mut alpha);
+                if let Some(p) = &checked {
+                    let nrules = p.variants.iter().filter(|v| *v != "EOI").count();
+                    if let Some(k) = p.fns.iter().position(|(f, _)| f == tname) { lits_prog(&p.fns, nrules, &p.fns[k].1, 3, &mut vec![k], &mut alpha); }
+                }
+                alpha.truncate(if maxlen >= 5 { 6 } else { 5 });
+                for c in [' ', '\r', '\n', 'a', '0', '-', '"'] { if !alpha.contains(&c) { alpha.push(c); } }
+                let al: Vec<String> = alpha.iter().map(|c| c.to_string()).collect();
+                let alr: Vec<&str> = al.iter().map(|x| x.as_str()).collect();
+                for t in all_strings(&alr, maxlen) { feed(tname, &t, &mut w); }
+                // contexts: fixed ones for the lexical rules of the meta-grammar, and a shortest derivation of the top rule through this rule
+                let mut ctx: Vec<(String, String)> = ["a = { b }@c = { d }", "/// doc@a = { b }", "//! doc@a = { b }", "a = { PEEK[@..] }", "a = { PEEK[..@] }", "a = { @ }", "a = {@b }", "a = { \"@\" }",
+                    "a = { '@'..'z' }", "a = { b{@} }", "a = { b{@,} }", "a@= { b }", "a = @{ b }", "a = { b ~ @ }", "a = { #t = @ }", "a = { PUSH(@) }", "a = { ^\"@\" }", "@"].iter()
+                    .map(|c| { let k = c.find('@').unwrap(); (c[..k].to_string(), c[k + 1..].to_string()) }).collect();
+                if let Some(top) = rmap.get("grammar_rules") { if let Some(h) = hole(&rmap, top, tname, 8) { ctx.push(h); } }
+                for r in ["grammar_rule", "expression", "term"] { if let Some(e) = rmap.get(r) { if let Some((a, b)) = hole(&rmap, e, tname, 6) { ctx.push((format!("a = {{ {}", a), format!("{} }}", b))); } } }
+                let short = all_strings(&alr, 3.min(maxlen));
+                for (pre, post) in &ctx { for x in &short { let t = format!("{}{}{}", pre, x, post); feed("grammar_rules", &t, &mut w); } }
+            }
+            writeln!(w, "#SUMMARY\tevaluations={}\tdistinct_nontrivial={}\tdirect_differences={}\tpest_files=0", n, nt, diffs).unwrap();
         }
         "freshsrc" => {
             writeln!(w, "// GENERATED by `c14 freshsrc`\n#![allow(warnings)]\nuse pest::Parser;\n#[derive(pest_derive::Parser)]\n#[grammar = {:?}]\npub struct Fresh;", grammar_path(&repo)).unwrap();
